@@ -890,6 +890,8 @@ fn pass_split(w: &mut World, rng: &mut Rng, batch: &[(Key, Option<Option<[u8; 32
     }
 }
 
+static FORCE_SPLIT: std::sync::atomic::AtomicBool = std::sync::atomic::AtomicBool::new(false);
+
 fn run_history(out: &mut Sink, rng: &mut Rng, case: String) {
     let garbage = if rng.chance(1, 4) { Some(rng.range(1, 255) as u8) } else { None };
     let inhibit = rng.chance(1, 5);
@@ -914,7 +916,7 @@ fn run_history(out: &mut Sink, rng: &mut Rng, case: String) {
             }
         }
         let new_kvs: Vec<(Key, [u8; 32])> = new_kv.iter().map(|(k, v)| (*k, *v)).collect();
-        let split = rng.chance(1, 3);
+        let split = rng.chance(1, 3) || FORCE_SPLIT.load(std::sync::atomic::Ordering::Relaxed);
         w.out.count(if split { "pass_split" } else { "pass_whole" });
         let stored_before: std::collections::BTreeSet<Vec<u8>> = w.store.keys().cloned().collect();
         let r = if split { pass_split(&mut w, rng, &batch, &new_kvs) } else { pass_whole(&mut w, &batch) };
@@ -1198,13 +1200,17 @@ fn run_directed(out: &mut Sink) {
     out.count("directed_cases");
 }
 
-pub fn run(seed: u64, cases: usize, out: &mut Sink) {
+pub fn run(seed: u64, cases: usize, focus: &str, out: &mut Sink) {
     let mut rng = Rng::new(seed ^ 0x57a1_4e55);
-    run_directed(out);
+    let split_only = focus == "split";
+    FORCE_SPLIT.store(split_only, std::sync::atomic::Ordering::Relaxed);
+    if !split_only {
+        run_directed(out);
+    }
     for c in 0..cases {
         out.mark_case(format!("walker seed={seed} case={c}"));
         let mut r = rng.fork();
-        if c % 5 == 4 {
+        if c % 5 == 4 && !split_only {
             run_freeform(out, &mut r, format!("walker --seed {seed} case {c} (freeform)"));
         } else {
             run_history(out, &mut r, format!("walker --seed {seed} case {c}"));
